@@ -102,8 +102,17 @@ func (s *MySQLSequence) getSeqFromDB() error {
 		return errors.New(fmt.Sprintf("invalid mycat sequence value %s %s", s.seqName, ret))
 	}
 
-	curr, _ := strconv.ParseInt(ns[0], 10, 64)
-	incr, _ := strconv.ParseInt(ns[1], 10, 64)
+	curr, err := strconv.ParseInt(ns[0], 10, 64)
+	if err != nil {
+		return fmt.Errorf("invalid mycat sequence value %s %s: %v", s.seqName, ret, err)
+	}
+	incr, err := strconv.ParseInt(ns[1], 10, 64)
+	if err != nil {
+		return fmt.Errorf("invalid mycat sequence value %s %s: %v", s.seqName, ret, err)
+	}
+	if incr <= 0 {
+		return fmt.Errorf("invalid mycat sequence increment %s %s", s.seqName, ret)
+	}
 	s.max = curr + incr
 	s.curr = curr
 	return nil
